@@ -30,7 +30,8 @@ def run(rep, tier, seed):
         "HyperbandScheduler(searcher='bayesopt') with model fitting switched off by construction (num_init_random larger "
         "than any history), so get_config stays in its random phase; the data set is the public "
         "searcher.state_transformer.state projected after EVERY call",
-        "observation values are mapped back through map_reward to the reported convention and compared as integers",
+        "observation values must be held in the minimisation convention (mode 'max': a decreasing map of the library, 1 - x or -x; "
+        "the check decides this from the scheduler's mode, not from what the searcher believes) and are compared as integers",
         "policy 'rungs_and_last': the rung levels kept are the milestones the trial reached in its own bracket",
         "the HyperTune searcher is driven on the same schedules as the GP searcher (same projection); DyHPO "
         "(type='dyhpo', searcher='dyhpo', data of the wrapped GP searcher) is driven on the promotion-type schedules: its "
